@@ -23,6 +23,7 @@ import time
 import vlib
 
 LEVEL = "model_checking"
+CLAIMED = True
 
 MANIFEST = dict(
     category="model_checking",
@@ -230,8 +231,8 @@ def check_gantt(forest, tr, res, fails):
                 t, ["op%d" % i for i in missing], len(used), len(spans))))
 
 
-def check_dep(forest, res, fails, mult=1):
-    mk = forest["mal"]["kind"]
+def check_dep(forest, res, fails, mult=1, mk=None):
+    mk = mk or forest["mal"]["kind"]
     body = jbody(res)
     exp = {(e["from"], e["to"]): e["n"] * mult for e in forest["dep"]}
     if res["status"] != 200 or not isinstance(body, dict):
@@ -263,8 +264,8 @@ def pct_bounds(durs, p):
     return d[(p * (n - 1)) // 100], d[(p * (n - 1) + 99) // 100]
 
 
-def check_red(forest, records, fails, mult=1, durs_of=None):
-    mk = forest["mal"]["kind"]
+def check_red(forest, records, fails, mult=1, mk=None):
+    mk = mk or forest["mal"]["kind"]
     by_svc = {}
     for r in records:
         if r.get("service") in by_svc:
@@ -365,6 +366,8 @@ def replay_forest(binary, case):
         res = call(dr, "tr_depgraph", body=json.dumps(body))
         views += 1
         check_dep(forest, res, fails)
+        if time.time() * 1000 - now_ms > 240_000:
+            raise vlib.Infra("case took > 4 min before the RED run (machine load): the spans leave RED's 5-minute window")
         call(dr, "tr_red")
         call(dr, "flush")
         r = call(dr, "query", index="red-traces", text="*", start=now_ms - 3600_000, end=now_ms + 3600_000, size=1000)
@@ -489,15 +492,17 @@ def replay_large(binary, case):
         # dependency graph: replicas add pairs; in trace mode the replica roots hang beneath the base root (same service: no new pair)
         res = call(dr, "tr_depgraph", body=json.dumps(body))
         views += 1
-        check_dep(forest, res, fails, mult=reps)
+        check_dep(forest, res, fails, mult=reps, mk=mk)
         # RED
+        if time.time() * 1000 - now_ms > 240_000:
+            raise vlib.Infra("large case took > 4 min before the RED run (machine load): the spans leave RED's 5-minute window")
         call(dr, "tr_red")
         call(dr, "flush")
         r = call(dr, "query", index="red-traces", text="*", start=now_ms - 3600_000, end=now_ms + 3600_000, size=1000)
         views += 1
         recs = ((r or {}).get("hits") or {}).get("records") or []
         if mode == "forest":
-            check_red(forest, recs, fails, mult=reps)
+            check_red(forest, recs, fails, mult=reps, mk=mk)
         else:
             # replica roots are children of the base root (same service): they stop being entry spans
             f2 = json.loads(json.dumps(forest))
@@ -558,6 +563,8 @@ def run_case(binary, case):
 
 def run(chk):
     quick = chk.tier == "quick"
+    if os.environ.get("VERIF_SKIP_MODEL"):        # development switch (mutation runs): binding only
+        return run_binding(chk, quick)
     # ---- model
     for name, cfg, note in (
             ("MC_Traces", "MC_Traces.cfg", "build + malformation + every ingest plan, MaxSpans=3: all invariants incl. IngestPlanInvariance"),
@@ -572,6 +579,10 @@ def run(chk):
         raise vlib.Infra("model sensitivity lost: ResolveInTrace=FALSE no longer violates BuildIsWellFormed")
     chk.cov["model_sensitivity"] = "ResolveInTrace=FALSE (parents resolved by span id alone) violates BuildIsWellFormed on cross-trace id collisions (expected)"
 
+    run_binding(chk, quick)
+
+
+def run_binding(chk, quick):
     # ---- behaviours
     f_ex, g1 = gen_forests("Gen_Traces_forest.cfg" if quick else "Gen_Traces_forest_deep.cfg", chk.seed, 300 if quick else 700, 20 if quick else 60)
     f_sim, g2 = gen_forests("Gen_Traces_forest_sim.cfg", chk.seed, 1, 1, simulate="num=%d" % (150 if quick else 2500), depth=14)
@@ -589,7 +600,7 @@ def run(chk):
     by_kind = {}
     for f in forests:
         by_kind.setdefault(f["mal"]["kind"], []).append(f)
-    n_total = 150 if quick else 4000
+    n_total = 150 if quick else 3000
     picked = []
     legal = ["none", "skew", "dupacross"]
     bad = [k for k in sorted(by_kind) if k not in legal]
@@ -639,6 +650,7 @@ def run(chk):
             occ[key] = occ.get(key, 0) + 1
             if key not in first:
                 first[key] = (detail, {k: v for k, v in c.items()})
+    chk.cov["all_violation_keys"] = dict(sorted(occ.items()))
     for key in sorted(first):
         detail, rep = first[key]
         chk.violation(key, "%s  (%d occurrences in this run)" % (detail, occ[key]), rep)
